@@ -170,6 +170,18 @@ SPECS["C05"] = {
     "assumptions": ["Kani's panic / arithmetic overflow / bounds checks as the oracle", "JSON: serde MapAccess, serde_json::from_value (Ok(empty list) | Err) and Engine::decode (Ok | Err) are contracts; error values are opaque"],
 }
 
+SPECS["C28"] = {
+    "parts": [{"engine": "m", "module": "c28"}],
+    "functions": ["dicom_ul::association::server::ServerAssociationOptions::process_a_association_rq::{closure#1} (per-context negotiation)", "ServerAssociationOptions::choose_ts (+ closure)",
+                  "dicom_ul::association::server::choose_supported (+ closure)", "dicom_ul::association::uid::trim_uid (+ closure)"],
+    "bounds": "universe: abstract syntaxes {1.2.3, 1.2.4} proposed as 4 texts (plain and NUL-padded), transfer syntaxes {Implicit VR LE, Explicit VR LE, an unknown UID} proposed as 4 texts (one NUL-padded), 0..2 proposed transfer syntaxes in any order "
+              "with repetition; configuration: any subset of the 2 abstract syntaxes, any subset of the 3 transfer syntaxes, promiscuous on/off; identifier symbolic (about 5400 paths)",
+    "outside": "more than one context per request (the closure is mapped over them), rejection of the whole request (protocol version, application context name, access control), maximum PDU length handling, user variable negotiation, "
+               "space-padded UIDs (trim_uid only trims texts ending in NUL: stated by the property as NUL-padded UIDs)",
+    "assumptions": ["contract: is_supported(uid) <=> the NUL-trimmed uid is Implicit or Explicit VR Little Endian (registry behaviour is decided under C16)", "slice::contains / str equality over concrete texts",
+                    "oracle: the rules of the property statement written out in enginem/cases/c28.py; counterexamples are replayed against a real acceptor over a loopback socket (raw A-ASSOCIATE-RQ in, A-ASSOCIATE-AC out)"],
+}
+
 SPECS["C29"] = {
     "parts": [{"engine": "m", "module": "c29"}, {"engine": "m", "module": "c29send"}],
     "bounds": "any number of proposed presentation contexts up to 100 000 that create_a_associate_req lets through (its guards are taken from its own MIR), any pair of positions; "
